@@ -14,7 +14,7 @@ from . import c03_driver as base
 
 PROP = "C04"
 NAME = "c04_optimum"
-RUNS = {"quick": 3500, "thorough": 150000}
+RUNS = {"quick": 3500, "thorough": 60000}
 TIMEOUT = base.TIMEOUT
 CPU_LIMIT = base.CPU_LIMIT
 CHUNK = 50
